@@ -1,8 +1,11 @@
 package roverif
 
 import (
+	"context"
 	"fmt"
 	"time"
+
+	"rosim/simcontext"
 
 	"github.com/samber/ro"
 )
@@ -181,6 +184,12 @@ func init() {
 				sc.Stages = append(sc.Stages, StageSpec{Op: passStages[g.Intn(len(passStages))], P: []int{1}})
 			}
 			sc.SetInt("raw", g.Intn(2))
+			// the subscription context is cancelled while the producers emit: the context watchers of the
+			// library (ThrowOnContextCancel, timers bound to the context) are one more concurrent producer
+			sc.SetInt("cancel", g.PickInt(-1, -1, 0, 0, 1, 2, 3))
+			if sc.Sub == "ThrowOnContextCancel" && g.Bool(0.7) {
+				sc.SetInt("cancel", g.PickInt(0, 0, 1, 2))
+			}
 			return sc
 		},
 		Run: func(e *Env) {
@@ -197,7 +206,19 @@ func init() {
 			}
 			o = e.BuildChain(o, sc.Stages, func(i int) ro.Observable[int] { return ro.Empty[int]() })
 			rec := e.NewRec("o")
-			e.Go("subscriber", func() { o.Subscribe(rec.Obs()) })
+			if at := sc.Int("cancel", -1); at >= 0 {
+				ctx, cancel := simcontext.WithCancel(context.Background())
+				e.Go("subscriber", func() { o.SubscribeWithContext(ctx, rec.Obs()) })
+				e.Go("canceller", func() {
+					if at > 0 {
+						simSleep(time.Duration(at) * Unit)
+					}
+					e.Yield()
+					cancel()
+				})
+			} else {
+				e.Go("subscriber", func() { o.Subscribe(rec.Obs()) })
+			}
 			e.SettleFor(100 * Unit)
 			checkNoOverlap(e, rec)
 		},
